@@ -125,9 +125,12 @@ def _history_facts(rec):
             facts['last_leave'] = e[2]
     steps = program['steps'] if 'steps' in program else []
     for st in steps:
-        if st['ret'][0] == 'raise':
+        ret = st.get('ret')
+        if not isinstance(ret, list) or not ret:
+            continue  # (workchain programs: plain return values)
+        if ret[0] == 'raise':
             facts['raised_tags'].add(st['ret'][1])
-        if st['ret'][0] == 'kill':
+        if ret[0] == 'kill':
             facts['kill_texts'].add(st['ret'][1])
         for _pos, fx in st.get('fx', ()):
             if fx[0] == 'soon' and fx[1] == 'raise':
@@ -256,6 +259,9 @@ def judge_c04(rec):
             break
     if fin['terminated']:
         ok_excepted = fin['state'] == 'excepted' and fin['exception'] is not None and fin['exception'][0] == 'ProgError'
+        if fin['state'] == 'excepted' and fin['exception'] is not None and fin['exception'][0] == 'KilledError' and any(
+                a['kind'] == 'child' and a['arg'][1] == 'kill' for a in acts):
+            ok_excepted = True  # a workchain whose awaited child was killed fails with that error (C10)
         if fin['state'] != 'killed' and not ok_excepted:
             out.append(V('kill-wrong-end', 'kill-wrong-end:%s:%s:%s' % (fin['state'], (fin['exception'] or ['-'])[0], pat(acts[-1])),
                          'kill requested on a live process but it ended %s (%s)' % (fin['state'], fin['exception'])))
